@@ -14,6 +14,7 @@ func Gen(store string) func(t *rapid.T) *Case {
 			c.Amb = rapid.IntRange(0, busmodel.AmbAll).Draw(t, "amb")
 		}
 		c.HonourCtx = rapid.Bool().Draw(t, "honourctx")
+		c.SubVia = rapid.SampledFrom([]string{"", "", "option", "both"}).Draw(t, "subVia")
 		if store == "sqlite" && rapid.IntRange(0, 2).Draw(t, "inmemory") == 0 {
 			c.Store = "sqlitemem"
 		}
